@@ -110,6 +110,7 @@ type Unit struct {
 	closures     map[*Term]*closureVal
 	needStrOrder bool
 	logsUsed     bool
+	ifaceStatic  map[int]types.Type // interface value term -> static type it was made from
 	entryEnv     *SpecEnv
 	args, fvs    []*SV
 	retState     *State
